@@ -416,6 +416,10 @@ class Interp:
                       "any": any, "all": all, "round": round, "divmod": divmod, "frozenset": frozenset}
             if fn == "len" and len(args) == 1 and isinstance(args[0], NS):
                 return args[0].get("__len__", U)
+            if fn == "getattr" and len(args) in (2, 3) and isinstance(args[0], NS) and isinstance(args[1], str):
+                if args[1] in args[0]:
+                    return args[0][args[1]]
+                return args[2] if len(args) == 3 else U
             if fn == "hasattr" and len(args) == 2 and isinstance(args[0], NS) and isinstance(args[1], str):
                 return args[1] in args[0] and args[0][args[1]] is not U
             if fn == "isinstance" and len(e.args) == 2 and args and isinstance(args[0], NS) and "__cls__" in args[0]:
